@@ -19,7 +19,7 @@ echo "   exit=$rc_clean"
 echo "== applying patch (peg.peg.go excluded, regenerated below)"
 git apply --exclude=peg.peg.go "$name/patch.diff" 2>/tmp/seedcheck-ev-$$.apply || git apply --3way --exclude=peg.peg.go "$name/patch.diff" || { cat /tmp/seedcheck-ev-$$.apply; echo "PATCH DOES NOT APPLY"; exit 3; }
 go build -o "$wt/peg.bin" . || { echo "BUILD FAILS"; exit 4; }
-if ! git diff --quiet -- tree/peg.go tree/peg.go.tmpl peg.peg; then
+if ! git diff --quiet HEAD -- tree/peg.go tree/peg.go.tmpl peg.peg; then
   ./peg.bin -inline -switch peg.peg && go build -o "$wt/peg.bin" . && ./peg.bin -inline -switch peg.peg || { echo "REGENERATION FAILS"; exit 5; }
 fi
 rm -f peg.bin
